@@ -167,6 +167,32 @@ UNIT = {
    'TOL_HEX_GH_ARE_DIGITS': 'decode_nibble takes g, h, G, H for digits 16 and 17 (`a..=h`), so decode_hex does not reject them (ISO 7.4.2: "any other characters '
                             'shall cause an error"). C05 allows "an error or a value" for corrupted data; nothing is demanded for input containing these four letters',
  },
+ # BOUNDED native stand-ins (vlib/native.py): the real crate through its public API (pdf::enc::{encode, decode}) on enumerated universes.
+ # They run the real libflate / weezl behind the dispatchers (which the Verus reading sees through trusted typestate stubs only) and the whole
+ # predictor path of flate_decode on encodings made by encoders the crate does not contain. Never counted as proved.
+ 'native': {'tests': [
+   {'name': 'decode_inverts_encode_enumerated', 'code': 'native_c16_roundtrip_bounded.rs', 'place': 'pdf/tests/verif_codecs2_c16_bounded.rs',
+    'fn': 'encode', 'props': ['C16'], 'tier': 'quick', 'timeout': 900,
+    'bound': 'filters {ASCIIHex, ASCII85, Flate{defaults}, Flate{Predictor 1, Colors 3, BPC 4, Columns 7}, LZW{EarlyChange 1}, LZW{EarlyChange 0}, '
+             'LZW{EarlyChange 1, Colors 3, Columns 7}} (RunLength has no encoder: refusal checked) x inputs {all 65 793 byte strings of length <= 2 (5 filters with distinct code '
+             'paths); all 512 strings of length 3 over {00,01,7e,3e,7a,ff,80,20}; lengths 4,5,8,127,128,129,255,256,257,4095,4096,4097 x 8 shapes (3 constants, alternating, 2 ramps, '
+             'LCG bytes, LCG over 4 letters); 3 low-entropy / random strings of 20 000-24 000 bytes (LZW table reset reached: clear codes counted)}; refusal: Predictor 2,10..15 x 6 '
+             'geometries x EarlyChange 0/1 on Flate and LZW, RunLength, DCT, JPX, CCITTFax, JBIG2, Crypt (must be Err), 7 other Predictor values and 5 odd EarlyChange values (Err or '
+             'round trip) x 5 inputs',
+    'contract': 'encode(x, f) == Ok(e) and decode(e, f) == Ok(x), nothing panics; e is also read back to x by a reference decoder written in the harness from ISO 32000-1 7.4.2 / '
+                '7.4.3 / 7.4.4.2 + Table 8 (hex, ASCII85, LZW with either EarlyChange), Flate output carries a valid RFC 1950 header and the Adler-32 of x; a filter value that encode '
+                'cannot invert (predictor, unsupported filter) yields Err and no bytes'},
+   {'name': 'decoders_read_independent_encodings', 'code': 'native_c05_decoders_bounded.rs', 'place': 'pdf/tests/verif_codecs2_c05_bounded.rs',
+    'fn': 'decode', 'props': ['C05'], 'tier': 'quick', 'timeout': 900,
+    'bound': 'encoders written in the harness (none of the crate): ASCIIHex 6 styles (case, each white-space character, line breaks, odd digit count, `>`), ASCII85 5 styles (`z` / `!!!!!`, '
+             'white-space, line breaks, final groups of 1-3 bytes, `~>`), RunLength 7 styles (literal runs <= 1/2/127/128, repeat runs 2..128 / 2..3 / 3..128, EOD 128), LZW (EarlyChange 0/1, '
+             'clear-table at entry 4096 / 4094 / 600; 12-bit codes and resets reached), Flate (zlib stored 65535- and 3-byte blocks, raw stored, zlib and raw fixed-Huffman literals) over all '
+             'byte strings of length <= 2 (hex, 85, RL; <= 1 + a 4 096 slice for Flate; <= 1 for LZW), {00,01,7e,3e,7a,ff,80,20}^3 (^4, ^5 for ASCII85), 96 shaped strings of length 4..4097, '
+             '20-70 kB strings for LZW / Flate; PNG Predictor 10..15 x Colors {1,3} x BPC 8 x Columns 1..5 x 0..4 rows and Predictor {12,15} x Colors {1,3} x BPC {1,2,4,16} x Columns 1..5 x '
+             '{1,3} rows, x 7 row-tag patterns (each of 0..4, two rotations) x 2 pixel sets x 2-3 framings; prefixes and 5 single-byte substitutions per position of 40 encodings (no panic). '
+             'NOT covered (known findings of unit flate): TIFF Predictor 2, predictors on LZWDecode; filter chains; DCT/CCITTFax/JBIG2/JPX',
+    'contract': 'decode(encoding of x by a specification-conforming encoder, filter) == Ok(x), nothing panics; truncated or corrupted encodings give Ok or Err, never a panic'},
+ ]},
  'items': {
    'decode_nibble': DECODE_NIBBLE,
    'decode_hex': DECODE_HEX,
